@@ -461,7 +461,9 @@ func oracleC08(x *Exec) []Finding {
 				continue
 			}
 			for _, a := range t.A {
-				if len(a.V) >= 3 && count(a.V) == 1 && inOutputData(x.OutToks, a.V) {
+				// (a marker must be distinctive: white space or punctuation alone proves nothing)
+				if m := strings.TrimSpace(a.V); len(m) >= 3 && strings.ContainsAny(m, "abcdefghijklmnopqrstuvwxyzABCDEFGHIJKLMNOPQRSTUVWXYZ0123456789") &&
+					count(a.V) == 1 && inOutputData(x.OutToks, a.V) {
 					fs = append(fs, Finding{"C08", "leak-markup", fmt.Sprintf("attribute value %q of a tag inside a skipped element appears in the output", a.V)})
 				}
 			}
